@@ -26,7 +26,7 @@
    part of the model (the stream compares extract() dumps). *)
 From Coq Require Import List Ascii String Bool Arith ZArith.
 From Phil Require Import Base Tree Vars Choice Fetch FetchBasics FetchShape FetchDisabled FetchExamples
-  FetchIdemLists FetchIdemBase FetchIdem FetchIdemCopy FetchIdemExamples FetchDiffBase FetchDiff FetchDiffCycle FetchDiffExamples.
+  FetchIdemLists FetchIdemBase FetchIdem FetchIdemCopy FetchIdemExamples FetchDiffBase FetchDiff FetchDiffCycle FetchDiffExamples VarsDiffText.
 Import ListNotations.
 
 (* D contains only parameters whose value differs from the master default: every definition of a
@@ -77,6 +77,90 @@ Theorem C08_defaults_empty : forall env canon, (forall k, canon k (Some k) = can
   fetch env canon false m [] = Ok w0 -> fetch env canon true m [w0] = Ok d -> d = [].
 Proof. exact defaults_empty. Qed.
 Print Assumptions C08_defaults_empty.
+
+(* ---------------------------------------------------------------- undefined $variables stay textual *)
+(* The clause "undefined $variables stay textual" of fetch_diff: the text written for an unresolved
+   reference (Vars.diff_text, given the first character of what follows) names the same variable when
+   the difference is read again.
+   var_name_ok v: the scanner accepts v between "$(" and ")"; plain_char: neither "$" nor a backslash;
+   head_matches fc rest: fc = Some c and rest starts with c, or fc = None and rest ends a bare name
+   at once (empty, "." or a non-continuation character first); fc = hd_error rest does. *)
+Theorem C08_textual_variable_resumes : forall w v fc fv have acc rest,
+  var_name_ok v = true -> head_matches fc rest ->
+  frags w (MLit fv) have acc (diff_text v fc ++ rest)
+  = frags w (MLit []) true (FVar v :: flush_lit fv acc) rest.
+Proof. exact diff_text_resumes. Qed.
+Print Assumptions C08_textual_variable_resumes.
+
+(* a literal follows *)
+Theorem C08_textual_variable_rereads : forall w v lit,
+  var_name_ok v = true -> forallb plain_char lit = true ->
+  frags w (MLit []) false [] (diff_text v (hd_error lit) ++ lit)
+  = Ok (true, FVar v :: match lit with [] => [] | _ => [FLit lit] end).
+Proof. exact diff_text_rereads. Qed.
+Print Assumptions C08_textual_variable_rereads.
+
+(* another textual reference follows: its "$" ends the name *)
+Theorem C08_textual_variable_rereads_before_variable : forall w v fv have acc rest,
+  var_name_ok v = true ->
+  frags w (MLit fv) have acc (diff_text v (Some "$"%char) ++ "$"%char :: rest)
+  = frags w MDollar true (FVar v :: flush_lit fv acc) rest.
+Proof. exact diff_text_rereads_before_variable. Qed.
+Print Assumptions C08_textual_variable_rereads_before_variable.
+
+(* the text resolve_word computes (Vars.dtext, via following_char): in front of whatever the later
+   fragments of the word contribute - literals, values of resolved references, textual references *)
+Theorem C08_textual_variable_rereads_in_word : forall env rec chain stop w nx rs vs w' v fv have acc,
+  var_name_ok v = true ->
+  mapM_tl (frag_result env rec true chain stop w true) nx = Ok rs ->
+  mapM result_value rs = Ok vs ->
+  frags w' (MLit fv) have acc (dtext env rec true chain stop w v nx ++ List.concat vs)
+  = frags w' (MLit []) true (FVar v :: flush_lit fv acc) (List.concat vs).
+Proof. exact dtext_rereads. Qed.
+Print Assumptions C08_textual_variable_rereads_in_word.
+
+(* a whole word whose references stay textual (text_of, right to left: literals as they are, a
+   reference as diff_text writes it in front of the text that follows; wf_frs: accepted names, plain
+   non-empty literals, no two literals in a row) *)
+Theorem C08_textual_word_rereads : forall w frs,
+  wf_frs false frs = true ->
+  frags w (MLit []) false [] (text_of frs) = Ok (existsb frag_is_var frs, frs).
+Proof. exact textual_word_rereads. Qed.
+Print Assumptions C08_textual_word_rereads.
+
+(* the defect that was repaired (C08-diff-variable-adjacent): the bare form "$name" written before
+   identifier characters reads as one longer name ("$DIR" + "_old") *)
+Theorem C08_textual_variable_bare_form_refuted : exists w v lit,
+  var_name_ok v = true /\ forallb plain_char lit = true /\
+  frags w (MLit []) false [] (("$"%char :: v) ++ lit) <> Ok (true, [FVar v; FLit lit]) /\
+  frags w (MLit []) false [] (("$"%char :: v) ++ lit) = Ok (true, [FVar (v ++ lit)]).
+Proof. exact bare_form_misreads. Qed.
+Print Assumptions C08_textual_variable_bare_form_refuted.
+
+Example C08_textual_variable_forms :
+  var_name_ok (s_ "DIR") = true /\ var_name_ok (s_ "a.b") = true /\ var_name_ok (s_ ".a") = true /\
+  diff_text (s_ "DIR") (hd_error (s_ "_old")) = s_ "$(DIR)" /\
+  diff_text (s_ "DIR") (hd_error (s_ "/old")) = s_ "$DIR" /\
+  diff_text (s_ "DIR") (hd_error (s_ ".old")) = s_ "$DIR" /\
+  diff_text (s_ "DIR") None = s_ "$DIR" /\
+  diff_text (s_ "a.b") None = s_ "$(a.b)" /\
+  diff_text (s_ "v") (hd_error (s_ "abc")) ++ s_ "abc" = s_ "$(v)abc" /\
+  wf_frs false [FLit (s_ "x/"); FVar (s_ "DIR"); FLit (s_ "_old"); FVar (s_ "a.b"); FVar (s_ "c")] = true /\
+  text_of [FLit (s_ "x/"); FVar (s_ "DIR"); FLit (s_ "_old"); FVar (s_ "a.b"); FVar (s_ "c")]
+  = s_ "x/$(DIR)_old$(a.b)$c".
+Proof. exact diff_text_forms. Qed.
+
+(* u = abc defined, v not: the word $v$u is written "$(v)abc"; the hypotheses of
+   C08_textual_variable_rereads_in_word hold for the fragment after $v *)
+Example C08_textual_variable_in_word_example :
+  resolve_word (fun _ => None) ex_rec true [[ex_u_def]] 2 (mkword (s_ "$v$u") QN 2)
+  = Ok [mkword (s_ "$(v)abc") Q2 0] /\
+  mapM_tl (frag_result (fun _ => None) ex_rec true [[ex_u_def]] 2 (mkword (s_ "$v$u") QN 2) true)
+          [FVar (s_ "u")] = Ok [RWord (mkword (s_ "abc") Q2 0)] /\
+  mapM result_value [RWord (mkword (s_ "abc") Q2 0)] = Ok [s_ "abc"] /\
+  dtext (fun _ => None) ex_rec true [[ex_u_def]] 2 (mkword (s_ "$v$u") QN 2) (s_ "v") [FVar (s_ "u")]
+  = s_ "$(v)".
+Proof. exact dtext_residual_shape. Qed.
 
 (* ---------------------------------------------------------------- outside the domain: refutation *)
 (* F7c (canon table recorded from the library): master  d = 1  d = 2  (.type=int .multiple=True),
